@@ -128,6 +128,10 @@ func (t tupleVariation) calculateScalar(coords []VarCoord, sharedTuples [][]VarC
 		}
 	}
 
+	if endIdx > len(coords) || endIdx > len(peakTuple) { // invalid font: 'gvar' and 'fvar' axis counts differ
+		return 0.
+	}
+
 	startTuple, endTuple := t.IntermediateTuples[0].Values, t.IntermediateTuples[1].Values
 	hasIntermediate := startTuple != nil
 
